@@ -2,6 +2,7 @@
 package c13
 
 import (
+	"crypto/rand"
 	"bytes"
 	"crypto/x509"
 	"encoding/binary"
@@ -319,7 +320,7 @@ func execSeq(c SeqCase) (vh.Outcome, error) {
 			case "sign":
 				gotSig, opErr = cl.SignWithFlags(pk, data, agent.SignatureFlags(o.Flags))
 			case "add":
-				ak := agent.AddedKey{PrivateKey: vh.Key(o.Key), Comment: o.Comment, LifetimeSecs: o.Lifetime, ConfirmBeforeUse: o.Confirm}
+				ak := agent.AddedKey{PrivateKey: vh.PrivKey(o.Key), Comment: o.Comment, LifetimeSecs: o.Lifetime, ConfirmBeforeUse: o.Confirm}
 				if o.UseCert {
 					ak.Certificate = sshCert(o.Key)
 				}
@@ -527,6 +528,31 @@ func execSeq(c SeqCase) (vh.Outcome, error) {
 			for j := range want {
 				if !bytes.Equal(gotSigners[j].PublicKey().Marshal(), want[j].Blob) {
 					return out, vh.Errf("%s: signer %d has another key", where, j)
+				}
+			}
+			// signing through a returned signer is a sign request for exactly the listed identity
+			for j := range want {
+				data := fill(24+j, o.DataSeed+7*j)
+				wantSig := &ssh.Signature{Format: "verif-format", Blob: fill(40, o.DataSeed+j+3)}
+				rec.Take()
+				rec.SetNext(vh.Script{Sig: wantSig})
+				var sig *ssh.Signature
+				var serr error
+				if perr := vh.Catch(func() { sig, serr = gotSigners[j].Sign(rand.Reader, data) }); perr != nil {
+					return out, vh.Errf("%s: signing through signer %d crashed: %v", where, j, perr)
+				}
+				cs := rec.Take()
+				if len(cs) != 1 || (cs[0].Op != "sign" && cs[0].Op != "signflags") {
+					return out, vh.Errf("%s: signing through signer %d reached the served agent as %d calls (%+v), expected one sign call", where, j, len(cs), cs)
+				}
+				if !bytes.Equal(cs[0].KeyBlob, want[j].Blob) {
+					return out, vh.Errf("%s: signing through signer %d (a %s identity of %d bytes) asked the served agent to sign with another key (%d bytes)", where, j, gotSigners[j].PublicKey().Type(), len(want[j].Blob), len(cs[0].KeyBlob))
+				}
+				if !bytes.Equal(cs[0].Data, data) {
+					return out, vh.Errf("%s: signing through signer %d: the served agent received other data", where, j)
+				}
+				if serr != nil || sig == nil || sig.Format != wantSig.Format || !bytes.Equal(sig.Blob, wantSig.Blob) {
+					return out, vh.Errf("%s: signing through signer %d: signature not returned as the served agent made it (err %v)", where, j, serr)
 				}
 			}
 		case "sign":
